@@ -156,8 +156,8 @@ Wait ==
                THEN \* ConnectionRefusedError leaves wait_for_ecu; the scanner's handler reconnects again: refused again
                     Stop("exc") /\ UNCHANGED <<hist, down, conn, refusing>>
                ELSE IF refusing >= Long
-               THEN \* wait_for_ecu gives up; whatever follows fails on the closed connection
-                    Stop("exit") /\ UNCHANGED <<hist, down, conn, refusing>>
+               THEN \* wait_for_ecu gives up; the next request's reconnect is refused as well: ConnectionRefusedError
+                    Stop("exc") /\ UNCHANGED <<hist, down, conn, refusing>>
                ELSE \* keep waiting: the refusal ends (the silence runs in parallel)
                     /\ refusing' = 0 /\ down' = IF down > refusing THEN down ELSE 0
                     /\ UNCHANGED <<hist, conn, pc, out>>
